@@ -126,6 +126,9 @@ pub fn framing_spaces(tier: Tier) -> Vec<ByteSpace> {
         Tier::Quick => v.push(bytes::dev2_space(bases, B12.to_vec(), 24)),
         Tier::Thorough => v.push(bytes::dev2_space(bases, b26(), 48)),
     }
+    // packets at the size limits (262 144 bytes and around 65 536 bytes) and well-tiled datagrams of 1..=3 tiles
+    v.push(bytes::giants_space());
+    v.push(bytes::tile_seq_space(3));
     v
 }
 
@@ -146,6 +149,7 @@ fn run_bytes(ctx: &mut Ctx, spaces: Vec<ByteSpace>, f: impl Fn(&[u8], &mut Local
 fn byte_bounds(ctx: &mut Ctx) {
     ctx.bound("S1", "byte0 (all 256) x 13 packet types x 7 length-field variants x lengths 0..=56 x 6 last bytes x 3 fills; and all 256 packet types on a reduced first/last byte alphabet");
     ctx.bound("S2", ctx.tier.pick("base set W (~190 packets): every 1-byte substitution over all 256 values; every 2-byte substitution over 12 symbols for bases <= 24 bytes", "k=1 over 256 values; k=2 over 26 symbols for bases <= 48 bytes"));
+    ctx.bound("S6 / tiles", "giants (262144-byte packets of each type, giant feedback packets under each FCI gate, 65536 BYEs ...) and all concatenations of 1..=3 tiles of the 12-kind tile menu");
     ctx.bound("S5", "every truncation and +1..+8 extension of W, with/without length re-synchronisation");
     ctx.assume("byte strings outside these spaces are not explored");
 }
@@ -161,8 +165,37 @@ fn check_header_obs(l: &mut Local, who: &str, s: &[u8], h: &HeaderObs, has_paddi
     }
 }
 
+/// The guarantees of the generic parser for a packet it returned for the bytes `s`.
+fn judge_generic(l: &mut Local, who: &str, s: &[u8], h: &HeaderObs, variant: Option<u8>) {
+    let byte1 = s.get(1).copied().unwrap_or(0);
+    match variant {
+        Some(pt) => {
+            let tp = TP::from_pt(pt).unwrap();
+            let d = read::framing_defects(s, Some(pt), tp.min());
+            if byte1 != pt {
+                l.violation(format!("dispatch-wrong-variant:{}", who), || hex_short(s), || format!("packet type byte {} parsed as variant of type {}", byte1, pt));
+            } else if !d.is_empty() {
+                l.violation(format!("ill-framed-accepted:{}->{}:{}", who, tp.name(), d[0]), || hex_short(s), || format!("{} accepted although: {:?}", who, d));
+            } else {
+                check_header_obs(l, who, s, h, true);
+            }
+        }
+        None => {
+            let d = read::framing_defects(s, None, 4);
+            let d: Vec<_> = d.into_iter().filter(|x| *x != "padding bit with a zero count").collect();
+            if TP::from_pt(byte1).is_some() {
+                l.violation(format!("dispatch-wrong-variant:{}", who), || hex_short(s), || format!("packet type byte {} yielded the Unknown variant", byte1));
+            } else if !d.is_empty() {
+                l.violation(format!("ill-framed-accepted:{}->Unknown:{}", who, d[0]), || hex_short(s), || format!("{} accepted although: {:?}", who, d));
+            } else {
+                check_header_obs(l, &format!("{}(Unknown)", who), s, h, false);
+            }
+        }
+    }
+}
+
 pub fn c08(ctx: &mut Ctx) {
-    ctx.rule = "every string of the framing spaces is fed to the 7 typed parsers, Packet::parse and Unknown::parse; whenever one accepts, the framing conditions are evaluated by the reference header reader and the header accessors compared; non-trivial = accepted by at least one parser, distinct by fingerprint of the string".into();
+    ctx.rule = "every string of the framing spaces is fed to the 7 typed parsers, Packet::parse, Unknown::parse and (when the length chain tiles it) Compound::parse + iteration, each yielded packet judged against its own tile; whenever one accepts, the framing conditions are evaluated by the reference header reader and the header accessors compared; non-trivial = accepted by at least one parser, distinct by fingerprint of the string".into();
     byte_bounds(ctx);
     let spaces = framing_spaces(ctx.tier);
     run_bytes(ctx, spaces, |s, l| {
@@ -193,28 +226,25 @@ pub fn c08(ctx: &mut Ctx) {
                 accepted = true;
                 l.hit("accepted:Packet");
                 l.validated += 1;
-                let byte1 = s.get(1).copied().unwrap_or(0);
-                match variant {
-                    Some(pt) => {
-                        let tp = TP::from_pt(pt).unwrap();
-                        let d = read::framing_defects(s, Some(pt), tp.min());
-                        if byte1 != pt {
-                            l.violation("dispatch-wrong-variant:Packet", || hex_short(s), || format!("packet type byte {} parsed as variant of type {}", byte1, pt));
-                        } else if !d.is_empty() {
-                            l.violation(format!("ill-framed-accepted:Packet->{}:{}", tp.name(), d[0]), || hex_short(s), || format!("Packet::parse accepted although: {:?}", d));
-                        } else {
-                            check_header_obs(l, "Packet", s, &h, true);
-                        }
-                    }
-                    None => {
-                        let d = read::framing_defects(s, None, 4);
-                        let d: Vec<_> = d.into_iter().filter(|x| *x != "padding bit with a zero count").collect();
-                        if TP::from_pt(byte1).is_some() {
-                            l.violation("dispatch-wrong-variant:Packet", || hex_short(s), || format!("packet type byte {} yielded the Unknown variant", byte1));
-                        } else if !d.is_empty() {
-                            l.violation(format!("ill-framed-accepted:Packet->Unknown:{}", d[0]), || hex_short(s), || format!("Packet::parse accepted although: {:?}", d));
-                        } else {
-                            check_header_obs(l, "Packet(Unknown)", s, &h, false);
+                judge_generic(l, "Packet", s, &h, variant);
+            }
+        }
+        // the generic parser's guarantees also hold for every packet a compound iteration hands out: each is
+        // judged against its own tile of the datagram
+        if let Some(tiles) = read::tile(s) {
+            l.transitions += 1;
+            let items = guard::catch(|| match Compound::parse(s) {
+                Err(_) => Vec::new(),
+                Ok(c) => c.take(tiles.len() + 1).map(|r| r.ok().map(|p| (packet_header(&p), packet_variant_pt(&p)))).collect::<Vec<_>>(),
+            });
+            match items {
+                Err(pi) => l.subject_panic("parse:Compound", &pi, || hex_short(s)),
+                Ok(items) => {
+                    for (i, it) in items.into_iter().enumerate() {
+                        if let (Some((h, variant)), Some(&(a, b))) = (it, tiles.get(i)) {
+                            l.hit("accepted:Compound::next");
+                            l.validated += 1;
+                            judge_generic(l, "Compound::next", &s[a..b], &h, variant);
                         }
                     }
                 }
@@ -367,26 +397,43 @@ pub fn c18(ctx: &mut Ctx) {
         }
         l.transitions += 1;
         match guard::catch(|| match Compound::parse(s) {
-            Err(e) => vec![(true, e)],
-            Ok(c) => c.take(s.len() / 4 + 2).filter_map(|r| r.err()).map(|e| (false, e)).collect(),
+            Err(e) => vec![(None, e)],
+            Ok(c) => c.take(s.len() / 4 + 2).enumerate().filter_map(|(i, r)| r.err().map(|e| (Some(i), e))).collect(),
         }) {
             Err(pi) => l.subject_panic("parse:Compound", &pi, || hex_short(s)),
             Ok(errs) => {
-                for (top, e) in errs {
+                let tiles = read::tile(s);
+                for (pos, e) in errs {
                     any_err = true;
-                    if top {
+                    match pos {
                         // the compound's own errors talk about the whole datagram: sizes only
-                        judge_error(l, "Compound", s, &e, None, None, false);
-                    } else {
-                        l.hit("err:from-compound-iteration");
-                        match &e {
-                            RtcpParseError::Truncated { expected, actual } if expected <= actual => {
-                                l.violation("untruthful-error:Compound::next:Truncated", || hex_short(s), || format!("{:?}", e))
+                        None => judge_error(l, "Compound", s, &e, None, None, false),
+                        Some(i) => {
+                            l.hit("err:from-compound-iteration");
+                            // an error yielded by the iteration is about the packet that failed to parse, i.e. the
+                            // i-th tile: it is judged against that tile exactly as the generic parser's error would be
+                            match tiles.as_ref().and_then(|t| t.get(i)) {
+                                Some(&(a, b)) => {
+                                    let tile = &s[a..b];
+                                    let (own, min) = match tile.get(1) {
+                                        Some(&pt) => match TPS.iter().find(|t| t.pt() == pt) {
+                                            Some(t) => (Some(pt), t.min()),
+                                            None => (None, 4),
+                                        },
+                                        None => (None, 4),
+                                    };
+                                    judge_error(l, "Compound::next", tile, &e, own, Some(min), true);
+                                }
+                                None => match &e {
+                                    RtcpParseError::Truncated { expected, actual } if expected <= actual => {
+                                        l.violation("untruthful-error:Compound::next:Truncated", || hex_short(s), || format!("{:?}", e))
+                                    }
+                                    RtcpParseError::TooLarge { expected, actual } if expected >= actual => {
+                                        l.violation("untruthful-error:Compound::next:TooLarge", || hex_short(s), || format!("{:?}", e))
+                                    }
+                                    _ => {}
+                                },
                             }
-                            RtcpParseError::TooLarge { expected, actual } if expected >= actual => {
-                                l.violation("untruthful-error:Compound::next:TooLarge", || hex_short(s), || format!("{:?}", e))
-                            }
-                            _ => {}
                         }
                     }
                 }
@@ -479,6 +526,7 @@ pub fn c12(ctx: &mut Ctx) {
     ctx.require_hit("conversion:other-known-variant");
     ctx.require_hit("conversion:from-unknown");
     ctx.require_hit("unknown-exposes-input");
+    ctx.require_hit("well-framed unknown type accepted");
 }
 
 fn c12_case(s: &[u8], l: &mut Local) {
@@ -508,6 +556,22 @@ fn c12_case(s: &[u8], l: &mut Local) {
     match &generic {
         Ok(_) => l.hit("dispatch-agrees:ok"),
         Err(_) => l.hit("dispatch-agrees:err"),
+    }
+    // "unrecognised types yield an unknown packet that exposes the input unchanged": a version-2 string of an
+    // unrecognised type whose length field matches its length and whose padding (if the bit is set) is a legal
+    // count that fits has nothing a parser could object to
+    let pad_fine = s[0] & 0x20 == 0 || {
+        let p = *s.last().unwrap() as usize;
+        p > 0 && p % 4 == 0 && p <= s.len() - 4
+    };
+    if TP::from_pt(byte1).is_none() && pad_fine && read::framing_defects(s, None, 4).is_empty() {
+        match &generic {
+            Ok(Packet::Unknown(_)) => l.hit("well-framed unknown type accepted"),
+            other => {
+                l.violation("well-framed-unknown-type-not-yielded-as-Unknown", || hex_short(s), || format!("Packet::parse = {:?}", other.as_ref().map(|p| packet_variant_pt(p))));
+                return;
+            }
+        }
     }
     if let Ok(Packet::Unknown(u)) = &generic {
         let d = u.data();
